@@ -99,6 +99,16 @@ func specs() []*Spec {
 			Rule:  "E1 enumeration per backend (assembly / reference selector, unsafe / subtle conditional move, both limb layouts): selector on its complete finite domain 32 rows x 17 digits (-8..8) == niels form of [b*256^row]B (validates all 256 table entries); the 32 sliding-table entries; Basepoint, d, 2d, sqrt(-1); fixed base on the nibble-pattern alphabet NIB (every digit value at every position, carry runs) + specials, through Expand (reduced callers) and ExpandRaw of the clamped value (X25519 caller) == Encode([s]B) of the model; double base on P in {B,-B,A(a0),A(a1),T_1..T_7,B+T_4,A(a0)+T_7,identity} (quick 5) x s1 in W5 (d*2^i, d odd < 32; runs of ones at offsets 0/1/124/251; 0,1,L-1,L-2) x s2 in {0,1,a0}, and P in {B,A(a0)} x s1 in {0,1,a0} x s2 in W7 (d odd < 128), points supplied through UnpackVartime / UnpackNegativeVartime alternately == [s1]P+[s2]B computed by the model through known discrete logs.",
 			Assume: append(trusted, "field Contract as decided by C18; scalar Expand as decided by C19"),
 		},
+		{
+			ID: "C08",
+			Units: []Unit{
+				{Pkg: "", Job: "C08", Quick: allCfg, Thorough: allCfg},
+				{Pkg: "extra/x25519", Job: "C08x", Quick: allCfg, Thorough: allCfg},
+			},
+			Post:   postC08,
+			Rule:   "E1 x configurations: one deterministic generator (the C01/C05 triple space at deviation level <= 2 evaluated in both modes, small-order keys x the S boundary alphabet, key generation and signing over seeds x SHA-512 boundary lengths x variants/contexts, batches of 15 sizes x 16 entry kinds x option sets; X25519 on the nibble-pattern scalar alphabet and 64 points, both key conversions on 2^11 (thorough 2^14) strings/seeds) is compiled into each of the 7 build configurations {default, noasm, force32bit, appengine, noasm+appengine, force32bit+appengine, GOARCH=386}; every case's outputs (keys, signatures, verdict vectors, X25519 outputs, error/panic classes) are digested and the transcripts compared case by case with the default configuration. The default configuration's outputs are checked against the model by C01-C07, C11, C12.",
+			Assume: []string{"arm64/ppc64le/s390x/mips builds of the same two limb layouts are not executed; the unalignedOk=false path of the unsafe conditional move is not reachable on amd64/386"},
+		},
 		// NEXT-SPEC
 		{
 			ID: "C04",
